@@ -4,19 +4,30 @@ import (
 	"fmt"
 	"go/token"
 	"go/types"
+	"math/big"
 	"sort"
 	"strings"
 
+	"cachelint/poly"
 	"cachelint/pw"
 )
 
 func init() { register("C18", checkC18) }
+
+// perEventMetrics are counted one event at a time: their Add value must be the constant 1.
+var perEventMetrics = map[string]bool{"cache_miss": true, "cache_expired": true, "cache_hit": true, "cache_write": true, "cache_delete": true,
+	"cache_build": true, "cache_failed": true, "cache_refreshed": true}
 
 func metricCounts(evs []*pw.Event) map[string]int {
 	out := map[string]int{}
 	for _, ev := range evs {
 		if n := metricName(ev); n != "" {
 			out[n]++
+			if perEventMetrics[n] && len(ev.Args) > 2 && ev.Frame != nil && !strings.HasSuffix(ev.Frame.Top(), "All") {
+				if cst, ok := poly.Of(ev.Args[2], nil).IsConst(); !ok || cst.Cmp(big.NewRat(1, 1)) != 0 {
+					out["!value-not-1:"+n]++
+				}
+			}
 		}
 	}
 	return out
@@ -318,6 +329,12 @@ func (c *Ctx) c18Failover(fo *FO) {
 			for _, ev := range evs {
 				if n := metricName(ev); n != "" && ev.Frame != nil && (ev.Frame.InFunc("cache."+fo.Name+".doBuild") || ev.Frame.InFunc("cache."+fo.Name+".refreshStale") || ev.Frame.InFunc("cache."+fo.Name+".Get") || ev.Frame.InFunc("cache."+fo.Name+".observeMutability")) {
 					cnt[n]++
+					if perEventMetrics[n] && len(ev.Args) > 2 {
+						if cst, ok := poly.Of(ev.Args[2], nil).IsConst(); !ok || cst.Cmp(big.NewRat(1, 1)) != 0 {
+							d, t := c.pathDetail(fo, p, n+" is added with a value other than 1 per event")
+							r.Bad("R18.4", cons, "metric-value:"+n, c.Pos(ev.Pos), d, t)
+						}
+					}
 				}
 			}
 			if st == triFalse {
